@@ -1024,6 +1024,59 @@ pub fn run_for_c12(cx: &Cx) -> Acc {
     acc
 }
 
+/// C20 under interleavings: polls after the terminal event (in particular after an abort whose
+/// error was consumed while the writer was still inside `abort()` / being dropped).
+pub fn check_c20(case: &SchedCase, acc: &mut Acc) -> (Check, Vec<ChoicePoint>) {
+    let out = execute(case);
+    let log = out.log.clone();
+    if let Some(v) = &out.violation {
+        if v.sig.starts_with("internal:") {
+            acc.internal_errors.push(format!("{}: {}", v.sig, v.msg));
+        } else if !v.sig.starts_with("panic:") {
+            acc.count("progress-or-abort-violation-seen(see C10/C11)");
+            return (Ok(()), log);
+        }
+    }
+    let r = check_terminated_stays(&out.trace, "scheduled-streaming").map_err(|f| Fail {
+        sig: f.sig,
+        msg: format!("{}; case {}; history: {}", f.msg, serde_json::to_string(case).unwrap_or_default(), out.events.join(" | ")),
+    });
+    if r.is_ok() {
+        acc.note(
+            if out.trace.ended_err().is_some() { "scheduled-streaming:abort" } else { "scheduled-streaming:clean-end" },
+            !out.trace.extra.is_empty() && out.trace.ended_err().is_some(),
+            fingerprint(&(&case.program, case.cfg, &case.choices, case.chunk, case.gzip)),
+            || json!({"case": case, "history": out.events}),
+        );
+    }
+    (r, log)
+}
+
+pub fn run_for_c20(cx: &Cx) -> Acc {
+    let mut acc = Acc::new();
+    let max_len = cx.tier.pick(3usize, 4usize);
+    let mut units: Vec<SchedCase> = Vec::new();
+    for program in programs(max_len, true) {
+        for (gzip, chunk) in [(None, 2usize), (Some(1u32), 6)] {
+            if gzip.is_some() && (program.len() > 2 || program.iter().any(|o| matches!(o, POp::Wait))) {
+                continue;
+            }
+            units.push(SchedCase {
+                gzip,
+                chunk,
+                program: program.clone(),
+                cfg: CCfg { fresh_waker: false, spurious: 0, sample: false, extra_polls: 3 },
+                choices: vec![],
+            });
+        }
+    }
+    let cap = cx.tier.pick(1500usize, 20_000usize);
+    acc.merge(par_units(cx, "sched-repoll", &units, false, "schedules (<= 2 preemptions, capped) with three polls after the terminal event", |cx, base, acc| {
+        explore_with(cx, "sched-repoll", base, 2, cap, acc, &|c, a| check_c20(c, a));
+    }));
+    acc
+}
+
 pub fn run_c10(cx: &Cx) -> Acc {
     run_common(cx, false)
 }
